@@ -274,6 +274,12 @@ where
     ensure!(public_inputs.len() == S::PUBLIC_INPUTS);
 
     let fri_params = config.fri_params(degree_bits);
+    // The trace length comes from the proof, while a fixed reduction schedule comes from the configuration: make sure
+    // the schedule fits before the FRI code subtracts one from the other.
+    ensure!(
+        fri_params.total_arities() <= degree_bits,
+        "FRI reduction schedule does not fit the trace length."
+    );
     let cap_height = fri_params.config.cap_height;
 
     // Compare lengths rather than calling `height()`, which panics when the length of a
